@@ -133,6 +133,30 @@ func c04ErrArgument(w *World, r *Report, pa *pipelineAnchors) {
 			}) {
 				if fn == root && onlyVia(fn, u.Block(), nonNilOf(isResult(c, errIdx(c)))) {
 					ok = true
+					// the parse step must not depend on the authenticator's policy: a token rejected by
+					// policy (e.g. a disallowed algorithm) is a rejected credential, not a missing one
+					cfgDep := false
+					for _, a := range c.Common().Args {
+						isCred := false
+						for _, g := range gads {
+							if isResult(g, 0)(stripConv(a)) {
+								isCred = true
+							}
+						}
+						if isCred {
+							continue
+						}
+						if dependsOn(w, a, func(x ssa.Value) bool {
+							root2, p := accessPath(x)
+							if par, isP := root2.(*ssa.Parameter); isP && len(fn.Params) > 0 && par == fn.Params[0] && (len(p) > 0 || x == ssa.Value(par)) {
+								return true
+							}
+							return false
+						}) {
+							cfgDep = true
+						}
+					}
+					r.Ob(ri, key+"|parse-independent-of-policy", c.Pos(), !cfgDep, "the call whose failure is classified as 'no credentials' takes an argument that depends on the authenticator's configuration: a credential rejected by policy would enable fallback")
 				}
 			}
 			r.Ob(ri, key+"|parse-branch", u.Pos(), ok, "in an authenticator ErrArgument may be introduced only on the != nil edge of a third-party call parsing the extracted credential")
